@@ -52,6 +52,12 @@ pub fn values_for(w: usize, rng: &mut impl RngCore) -> Vec<(&'static str, BlsSca
         v.push(("2^(8j)-1", pow2(j as u32) - one));
         v.push(("2^(8j)+1", pow2(j as u32) + one));
     }
+    // field fractions: k / 2 = (r + k) / 2 and k / 2^j for small odd k - small
+    // after doubling, about 2^254 as integers
+    let k = BlsScalar::from(1 + 2 * (rng.next_u64() % 8));
+    v.push(("k/2", k * BlsScalar::from(2u64).invert().unwrap()));
+    v.push(("k/2^j", k * pow2(1 + rng.next_u32() % 8).invert().unwrap()));
+    v.push(("k/3", k * BlsScalar::from(3u64).invert().unwrap()));
     // random below and above
     let r = rand_scalar(rng);
     v.push(("random-above", r));
